@@ -295,7 +295,17 @@ theorem maco_range (lo hi s : Rat) (hlh : lo < hi) (h0 : 0 < s) (h1 : s < 1) :
 /-- **requested shape** — for every square size (odd or even) the inverse real FFT returns at
     least `s` columns, so the crop `[:, :s, :s, :]` yields exactly `(batch, s, s, channels)`. -/
 theorem fft_shape (s : Nat) (hs : 0 < s) : s ≤ irfftWidth (fftCols s) := by
-  unfold irfftWidth fftCols; split <;> omega
+  unfold irfftWidth fftCols Gen.fftColsGen Gen.fftCutOff
+  rw [Int.fdiv_eq_ediv_of_nonneg _ (by decide : (0 : Int) ≤ 2),
+      Int.fmod_eq_emod_of_nonneg _ (by decide : (0 : Int) ≤ 2)]
+  split <;> omega
+
+/-- the generated column count is the documented `s/2 + 1 (+1 for odd s)` -/
+theorem fft_cols_spec (s : Nat) : fftCols s = s / 2 + 1 + (if s % 2 = 1 then 1 else 0) := by
+  unfold fftCols Gen.fftColsGen Gen.fftCutOff
+  rw [Int.fdiv_eq_ediv_of_nonneg _ (by decide : (0 : Int) ≤ 2),
+      Int.fmod_eq_emod_of_nonneg _ (by decide : (0 : Int) ≤ 2)]
+  split <;> split <;> omega
 
 /-! ### negation witnesses: the behaviour before the fix commits violates the property -/
 
